@@ -84,7 +84,7 @@ def run(s):
     for i in range(130 if s.tier == 'quick' else 5000):
         if s.mine(i):
             reuse(s, i)
-    n_states = 40 if s.tier == 'quick' else 1500
+    n_states = 40 if s.tier == 'quick' else 4000
     per = 4 if s.tier == 'quick' else 6
     for i in range(n_states):
         if not s.mine(i):
@@ -107,7 +107,7 @@ def run(s):
                             pretty=rng.random() < 0.5, **kw)
             s.step(s.load(ro_txt), msg, {'state': i, 'deep': True})
         storysend_variants(s, ro_txt, state, rng, pool)
-    K.fuzz(s, 60 if s.tier == 'quick' else 2000, K.kind_weights(1, 1, 1.0), steps=(5, 20), text='hostile',
+    K.fuzz(s, 60 if s.tier == 'quick' else 6000, K.kind_weights(1, 1, 1.0), steps=(5, 20), text='hostile',
            shape_weights=(0.95, 0.02, 0.03, 0.0))
 
 
